@@ -114,3 +114,16 @@ Print Assumptions C04_spec_sorted.
 Print Assumptions C04_hints_irrelevant.
 Print Assumptions C04_trivial_hints_sound.
 Print Assumptions C04_example.
+
+(* ---------- composition with the builder and codec theorems ---------- *)
+Require Import FstV.Builder FstV.Fst FstV.CodecSpec FstV.proofs.Closed FstV.proofs.StreamProofs FstV.proofs.ReaderProofs.
+
+(* end to end: on the bytes a builder writes for ANY key list, values, type and cache geometry *)
+Theorem C04_on_built_maps : forall summer ty rows cols kvs,
+  input_ok kvs -> ty < U64 -> (forall l, summer l < 4294967296) ->
+  exists bs, build_map summer ty rows cols kvs = Ok bs /\
+    forall A cs, can_match_sound A -> no_eof_hook A -> calls_bytes cs ->
+      api_search_with_state bs A cs = Ok (spec_search kvs A cs) /\
+      api_search bs A cs = Ok (map (fun it => (fst (fst it), snd (fst it))) (spec_search kvs A cs)).
+Proof. exact C04_closed. Qed.
+Print Assumptions C04_on_built_maps.
